@@ -25,6 +25,8 @@ from harness.core import Result
 
 LEVEL = "exploration"
 RULES = {
+    "session": "exhaustive: every sequence of 1..3 (thorough: 4) calls over nine operations issued from inside a websocket_session view (the first raising call ends "
+    "the view) x three server scripts: the events reaching the server must form a legal application sequence; non-trivial = the view ended with an exception",
     "exh": "exhaustive (incl. scripts in which the server's send raises on the close frame): every call history of length <= n over 15 wrapper operations (accept, accept(subprotocol), receive, "
     "receive_text, receive_bytes, iter_text(2), iter_bytes(2), send_text, send_bytes, close, close(code), raw send of "
     "accept/send/close/garbage) x server scripts (connect, 0..k text/bytes frames, then disconnect or silence), driven "
@@ -499,7 +501,60 @@ def oracle_denial(case) -> Result:
     return r
 
 
-SUBS = {"exh": oracle, "long": oracle, "guided": oracle, "denial": oracle_denial}
+async def _await_op(ws, op):
+    if op == "accept":
+        return await ws.accept()
+    if op == "accept_sub":
+        return await ws.accept("sp")
+    if op == "receive":
+        return await ws.receive()
+    if op == "receive_text":
+        return await ws.receive_text()
+    if op == "receive_bytes":
+        return await ws.receive_bytes()
+    if op == "send_text":
+        return await ws.send_text("hello")
+    if op == "send_bytes":
+        return await ws.send_bytes(b"hello")
+    if op == "close":
+        return await ws.close()
+    if op == "close_code":
+        return await ws.close(4000)
+    if op in RAW:
+        return await ws.send(dict(RAW[op]))
+    raise core.HarnessError(op)
+
+
+def oracle_session(case) -> Result:
+    """The same call sequences issued from inside a `websocket_session` view, where the first call
+    that raises ends the view with that exception: whatever the shortcut itself does around the view,
+    the events that reach the server must still form a legal application sequence."""
+    r = Result()
+    script = build_script(case["script"])
+    ops = case["ops"]
+    server = Server(script)
+    ran = []
+
+    @websocket_session
+    async def app(ws):
+        for op in ops:
+            ran.append(op)
+            await _await_op(ws, op)
+
+    scope = {"type": "websocket", "path": "/", "headers": [], "subprotocols": ["sp"]}
+    out = drive(app(scope, server.receive, server.send))
+    ctx = f"script={case['script']!r} ops={ops!r} (view ended: {out[0]}{' ' + type(out[1]).__name__ if out[0] == 'raise' else ''} after {ran!r})"
+    bad = app_sequence_legal(server.forwarded)
+    if bad:
+        r.fail("C11:session:illegal-forwarded-sequence", f"{ctx}: {bad}; forwarded {server.forwarded!r}")
+    if server.late_receive:
+        r.fail("C11:session:receive-after-disconnect", f"{ctx}: receive issued after the disconnect was delivered")
+    r.nontrivial = out[0] == "raise"
+    r.label(f"end={out[0]}", f"len={len(ops)}")
+    return r
+
+
+SUBS = {"exh": oracle, "long": oracle, "guided": oracle, "denial": oracle_denial, "session": oracle_session}
 
 
 def scripts(maxframes):
@@ -574,6 +629,14 @@ def denial_cases():
     yield {"via": "session-http", "response": "empty404", "extension": False}
 
 
+def session_cases(maxlen):
+    ops = ["accept", "receive", "receive_text", "send_text", "close", "close_code", "raw_close", "raw_send", "raw_garbage"]
+    for spec in ({"frames": "", "end": "disconnect"}, {"frames": "T", "end": "silence"}, {"frames": "TB", "end": "disconnect"}):
+        for n in range(1, maxlen + 1):
+            for combo in itertools.product(ops, repeat=n):
+                yield {"script": spec, "ops": list(combo)}
+
+
 def run(rec, only=None):
     quick = rec.tier == "quick"
     if quick:
@@ -584,5 +647,7 @@ def run(rec, only=None):
     core.drive_hypothesis(rec, "long", long_case(), oracle, 2000 if quick else 50000)
     core.drive_hypothesis(rec, "guided", guided_case(), oracle, 2000 if quick else 50000, seed_offset=5)
     core.drive_cases(rec, "denial", denial_cases(), oracle_denial)
+    core.drive_cases(rec, "session", session_cases(3 if quick else 4), oracle_session, sample=True)
+    rec.exhaustive["session"] = True
     rec.exhaustive["long"] = rec.exhaustive["guided"] = False
     rec.exhaustive["denial"] = True
